@@ -181,3 +181,8 @@ Proof.
   - rewrite IHa, IHb. reflexivity.
   - rewrite IHa, IHb. reflexivity.
 Qed.
+
+(* the evaluated COMPARATOR_TO_OPERATOR table: every positive operator computes the comparison it is named after and
+   every negative operator is its complement *)
+Lemma comparator_table_agrees : forallb cmp_row_ok gen_cmp_rows = true.
+Proof. vm_compute. reflexivity. Qed.
